@@ -193,10 +193,10 @@ theorem genReactions_snd (taken : List String) : ∀ (l : List (Name × SymRxn))
     simp [genReactions, rxnCalls, genStoich_snd]; exact ih _
 
 theorem genMxlpy_build (s : SymRepr) :
-    (genMxlpy s).build = initCalls (takenOf s) Call.addVariable s.variables
+    (genProgram s).build = initCalls (takenOf s) Call.addVariable s.variables
       ++ initCalls (takenOf s) Call.addParameter s.parameters
       ++ derivedCalls s.derived ++ rxnCalls (takenOf s) s.reactions := by
-  simp [genMxlpy, genInits_snd, genDerived_snd, genReactions_snd]
+  simp [genProgram, genInits_snd, genDerived_snd, genReactions_snd]
 
 /-! ### every definition in the `functions` dict comes from a use of the model -/
 
@@ -312,8 +312,8 @@ theorem use_of_coef {c : NContent} {k v : Name} {r : NRxn} {u : Use} (h : (k, r)
   simp only [List.mem_filterMap]
   exact ⟨_, hv, rfl⟩
 
-theorem symOf_defs_ok (c : NContent) : AllOk c (genMxlpy (symOf c)).defs := by
-  unfold genMxlpy
+theorem symOf_defs_ok (c : NContent) : AllOk c (genProgram (symOf c)).defs := by
+  unfold genProgram
   simp only
   have h0 : AllOk c ([] : Fns) := by intro kd h; cases h
   have hv : ∀ kv ∈ (symOf c).variables, SymValOk c kv.2 := by
@@ -792,32 +792,32 @@ theorem roundTrip_ok (c : NContent) (hc : Canonical c) (h : refsResolve c = true
   rw [toSymbolicRepr_nil] at h
   simp only [Program.refsOk, Bool.and_eq_true] at h
   obtain ⟨hnd, hrefs⟩ := h
-  have g : Good c (genMxlpy (symOf c)).defs := ⟨hc, symOf_defs_ok c, hnd⟩
-  have hall : ∀ call ∈ (genMxlpy (symOf c)).build, ∀ r ∈ call.refs, refOk (genMxlpy (symOf c)).defs r = true := by
+  have g : Good c (genProgram (symOf c)).defs := ⟨hc, symOf_defs_ok c, hnd⟩
+  have hall : ∀ call ∈ (genProgram (symOf c)).build, ∀ r ∈ call.refs, refOk (genProgram (symOf c)).defs r = true := by
     intro call hcall r hr
     exact List.all_eq_true.mp (List.all_eq_true.mp hrefs call hcall) r hr
   rw [genMxlpy_build] at hall
-  have hV : ∀ kv ∈ c.vars, ∀ r ∈ (initVal (takenOf (symOf c)) (symValOf c kv.2)).refs, refOk (genMxlpy (symOf c)).defs r = true := by
+  have hV : ∀ kv ∈ c.vars, ∀ r ∈ (initVal (takenOf (symOf c)) (symValOf c kv.2)).refs, refOk (genProgram (symOf c)).defs r = true := by
     intro kv hkv r hr
     refine hall (Call.addVariable kv.1 (initVal (takenOf (symOf c)) (symValOf c kv.2))) ?_ r (by simpa [Call.refs] using hr)
     simp only [List.mem_append, initCalls, symOf, List.mem_map]
     exact Or.inl (Or.inl (Or.inl ⟨(kv.1, symValOf c kv.2), ⟨kv, hkv, rfl⟩, rfl⟩))
-  have hP : ∀ kv ∈ c.pars, ∀ r ∈ (initVal (takenOf (symOf c)) (symValOf c kv.2)).refs, refOk (genMxlpy (symOf c)).defs r = true := by
+  have hP : ∀ kv ∈ c.pars, ∀ r ∈ (initVal (takenOf (symOf c)) (symValOf c kv.2)).refs, refOk (genProgram (symOf c)).defs r = true := by
     intro kv hkv r hr
     refine hall (Call.addParameter kv.1 (initVal (takenOf (symOf c)) (symValOf c kv.2))) ?_ r (by simpa [Call.refs] using hr)
     simp only [List.mem_append, initCalls, symOf, List.mem_map]
     exact Or.inl (Or.inl (Or.inr ⟨(kv.1, symValOf c kv.2), ⟨kv, hkv, rfl⟩, rfl⟩))
-  have hD : ∀ kv ∈ c.derived, refOk (genMxlpy (symOf c)).defs
+  have hD : ∀ kv ∈ c.derived, refOk (genProgram (symOf c)).defs
       { key := (c.pyfn kv.2.fid).name, args := kv.2.args, src := kv.2.fid } = true := by
     intro kv hkv
     refine hall (Call.addDerived kv.1 { key := (c.pyfn kv.2.fid).name, args := kv.2.args, src := kv.2.fid }) ?_ _
       (by simp [Call.refs])
     simp only [List.mem_append, derivedCalls, symOf, List.mem_map]
     exact Or.inl (Or.inr ⟨(kv.1, symFnOf c kv.2), ⟨kv, hkv, rfl⟩, rfl⟩)
-  have hR : ∀ kv ∈ c.rxns, refOk (genMxlpy (symOf c)).defs
+  have hR : ∀ kv ∈ c.rxns, refOk (genProgram (symOf c)).defs
         { key := (c.pyfn kv.2.rate.fid).name, args := kv.2.rate.args, src := kv.2.rate.fid } = true
        ∧ ∀ vc ∈ kv.2.stoich, ∀ r ∈ (stoichVal (takenOf (symOf c)) kv.1 (symCoefOf c vc.2)).refs,
-           refOk (genMxlpy (symOf c)).defs r = true := by
+           refOk (genProgram (symOf c)).defs r = true := by
     intro kv hkv
     have hm : Call.addReaction kv.1 { key := (c.pyfn kv.2.rate.fid).name, args := kv.2.rate.args, src := kv.2.rate.fid }
         ((symRxnOf c kv.2).stoich.map fun vs => (vs.1, stoichVal (takenOf (symOf c)) kv.1 vs.2))
@@ -833,8 +833,10 @@ theorem roundTrip_ok (c : NContent) (hc : Canonical c) (h : refsResolve c = true
     exact Or.inr ⟨(vc.1, stoichVal (takenOf (symOf c)) kv.1 (symCoefOf c vc.2)), ⟨(vc.1, symCoefOf c vc.2), ⟨vc, hvc, rfl⟩, rfl⟩, hr⟩
   unfold roundTrip
   rw [toSymbolicRepr_nil]
-  simp only [bind, Except.bind, runProgram, checkDefs_ok _ hnd, genMxlpy_build]
-  generalize (genMxlpy (symOf c)).defs = D at g hV hP hD hR ⊢
+  have hg : genMxlpy (symOf c) = .ok (genProgram (symOf c)) := by
+    simp only [genMxlpy, hnd]; rfl
+  simp only [bind, Except.bind, hg, runProgram, checkDefs_ok _ hnd, genMxlpy_build]
+  generalize (genProgram (symOf c)).defs = D at g hV hP hD hR ⊢
   have e0 : (symOf c).variables = c.vars.map fun kv => (kv.1, symValOf c kv.2) := rfl
   have e0' : (symOf c).parameters = c.pars.map fun kv => (kv.1, symValOf c kv.2) := rfl
   have e0'' : (symOf c).derived = c.derived.map fun kv => (kv.1, symFnOf c kv.2) := rfl
